@@ -491,6 +491,18 @@ func (c *ctl) track(g *gor, id string, v []int) {
 // chunk / timer branch (-1 while a chunk is being scanned)
 var mainRecv, mainBuf atomic.Int64
 
+// mainHeldSince: when mainLoop last went back to its select holding an incomplete sequence (0: holds nothing);
+// mainWorstGap: the longest time such a held sequence had to wait for the next chunk (op `tailwait` judges only runs in
+// which that stayed well below the 50 ms escape timeout: a longer wait is a legitimate timeout, not a defect)
+var mainHeldSince, mainWorstGap atomic.Int64
+
+// mainChunkStart / mainLongestScan: how long the main loop took over one chunk (scanInput blocked on a full event queue)
+var mainChunkStart, mainLongestScan atomic.Int64
+
+// mainFirstHeld: when the main loop FIRST went back to its select holding an incomplete sequence; firstInjAt: when the
+// director first handed real-time input to the tty (op `inj`)
+var mainFirstHeld, firstInjAt atomic.Int64
+
 func (c *ctl) point(id string, vals ...int) {
 	switch id {
 	case "main-chunk":
@@ -498,9 +510,28 @@ func (c *ctl) point(id string, vals ...int) {
 			mainBuf.Store(-1)
 			mainRecv.Add(int64(vals[0]))
 		}
+		if t0 := mainHeldSince.Load(); t0 != 0 {
+			if gap := time.Now().UnixNano() - t0; gap > mainWorstGap.Load() {
+				mainWorstGap.Store(gap)
+			}
+		}
+		mainChunkStart.Store(time.Now().UnixNano())
 	case "main-chunk-end", "main-timer-end":
+		if t0 := mainChunkStart.Load(); id == "main-chunk-end" && t0 != 0 {
+			if d := time.Now().UnixNano() - t0; d > mainLongestScan.Load() {
+				mainLongestScan.Store(d)
+			}
+		}
 		if len(vals) > 0 {
 			mainBuf.Store(int64(vals[0]))
+			if vals[0] > 0 {
+				if id == "main-chunk-end" || mainHeldSince.Load() == 0 {
+					mainHeldSince.Store(time.Now().UnixNano())
+				}
+				mainFirstHeld.CompareAndSwap(0, time.Now().UnixNano())
+			} else {
+				mainHeldSince.Store(0)
+			}
 		}
 	}
 	if c.free.Load() {
@@ -1580,6 +1611,7 @@ func (sc *scenario) director(nPost, perPost int, postWait bool) {
 			if len(f) >= 2 && c.free.Load() {
 				b, _ := hex.DecodeString(f[1])
 				sc.timed = true
+				firstInjAt.CompareAndSwap(0, time.Now().UnixNano())
 				sc.injBytes += len(b)
 				sc.tag("timed-input")
 				sc.tty.inject(b)
@@ -1591,6 +1623,10 @@ func (sc *scenario) director(nPost, perPost int, postWait bool) {
 		case "keycheck":
 			if len(f) >= 2 && c.free.Load() {
 				sc.keyCheck(f[1])
+			}
+		case "tailwait":
+			if len(f) >= 2 && c.free.Load() {
+				sc.tailWait(strings.Split(f[1], ","))
 			}
 		case "mid":
 			// input arriving between Suspend and Resume (after the first batch is completely in the tty)
